@@ -5,14 +5,18 @@
 (* same name for every configuration from the same description that is     *)
 (* handed to the Go driver, and puts it in front of this one.              *)
 (* A chain is a sequence of blocks (index = height), a block a sequence of *)
-(* transactions [id, nout, ins, scr], ins a sequence of outpoints          *)
+(* transactions [id, nout, ins, scr, cb], ins a sequence of outpoints      *)
 (* <<txid, n>>, scr the script id of every output (default id*10 + n;      *)
-(* outputs with the same id pay to the same script: address re-use).       *)
+(* outputs with the same id pay to the same script: address re-use),       *)
+(* cb = 1: the transaction is the block's coinbase (first transaction of   *)
+(* the real block, no inputs; the fate of its outputs is that of any       *)
+(* other output, so no operator reads the field - it tells the driver      *)
+(* where to put the transaction).                                          *)
 (***************************************************************************)
 ChainTable ==
-  << << << [id |-> 1, nout |-> 2, ins |-> <<>>, scr |-> <<10, 11>>] >>,
-        << [id |-> 2, nout |-> 1, ins |-> <<>>, scr |-> <<20>>],
-           [id |-> 3, nout |-> 1, ins |-> << <<2, 0>>, <<1, 0>> >>, scr |-> <<30>>] >>,
-        << [id |-> 4, nout |-> 1, ins |-> << <<1, 0>> >>, scr |-> <<40>>],
-           [id |-> 5, nout |-> 1, ins |-> << <<9, 0>>, <<1, 0>>, <<1, 1>> >>, scr |-> <<50>>] >> >> >>
+  << << << [id |-> 1, nout |-> 2, ins |-> <<>>, scr |-> <<10, 11>>, cb |-> 0] >>,
+        << [id |-> 2, nout |-> 1, ins |-> <<>>, scr |-> <<20>>, cb |-> 0],
+           [id |-> 3, nout |-> 1, ins |-> << <<2, 0>>, <<1, 0>> >>, scr |-> <<30>>, cb |-> 0] >>,
+        << [id |-> 4, nout |-> 1, ins |-> << <<1, 0>> >>, scr |-> <<40>>, cb |-> 0],
+           [id |-> 5, nout |-> 1, ins |-> << <<9, 0>>, <<1, 0>>, <<1, 1>> >>, scr |-> <<50>>, cb |-> 0] >> >> >>
 =============================================================================
